@@ -99,3 +99,4 @@ pub assume_specification<T, F: FnOnce() -> T> [Option::<T>::get_or_insert_with] 
         old(o).is_some() ==> *r == old(o).unwrap(),
         old(o).is_none() ==> f.ensures((), *r),
         *final(o) == Some(*final(r));
+
